@@ -56,7 +56,7 @@ def inst(key, helper, ins, outs, body, ref, p=None, valid=None):
     if isinstance(body, str):
         body = [body]
     return {"key": key, "helper": helper, "ins": tuple(tuple(i) for i in ins), "outs": tuple(tuple(o) for o in outs),
-            "body": list(body), "ref": ref, "p": dict(p or {}), "valid": valid}
+            "body": list(body), "ref": ref, "p": dict(p or {}), "valid": valid, "vals": "full"}
 
 
 def ubits(maxval):
@@ -297,11 +297,11 @@ def fam_clamp_narrow(w, kind):
 def fam_clamp_const(w, kind):
     I = [("val", kind, w)]
     lo_t, hi_t = (0, (1 << w) - 1) if kind == "u" else (-(1 << (w - 1)), (1 << (w - 1)) - 1)
-    rng = list(range(lo_t, hi_t + 1))
-    if len(rng) > 8:
-        pick = sorted({lo_t, lo_t + 1, -1 if kind == "s" else lo_t + 2, 0, 1, hi_t // 2, hi_t - 1, hi_t} & set(rng))
+    if hi_t - lo_t + 1 > 8:
+        pick = sorted(x for x in {lo_t, lo_t + 1, -1 if kind == "s" else lo_t + 2, 0, 1, hi_t // 2, hi_t - 1, hi_t}
+                      if lo_t <= x <= hi_t)
     else:
-        pick = rng
+        pick = list(range(lo_t, hi_t + 1))
     for lo in pick:
         for hi in pick:
             if lo <= hi:
@@ -527,6 +527,142 @@ def fam_cond(w):
 
 
 # =============================================================================================
+# WIDE stratum: widths above the exhaustive bound with a structured value set
+# =============================================================================================
+def wide_values(w):
+    """structured values of one wide operand: all-zero, all-ones, every one-hot, every one-cold,
+    both alternating patterns, every pair of adjacent bits (and its complement)"""
+    m = (1 << w) - 1
+    alt = int(("01" * w)[:w], 2)
+    vals = [0, m, alt, alt ^ m]
+    for i in range(w):
+        vals += [1 << i, m ^ (1 << i)]
+    for i in range(w - 1):
+        vals += [3 << i, m ^ (3 << i)]
+    return sorted(set(vals))
+
+
+def reduced_values(w, nbig=2):
+    """reduced set used in cross products of several wide operands (incl. the signed / unsigned extremes)"""
+    m = (1 << w) - 1
+    alt = int(("01" * w)[:w], 2)
+    msb = 1 << (w - 1)
+    if nbig >= 3:
+        return sorted({0, 1, m, msb, m ^ msb})
+    return sorted({0, 1, 3, m, msb, m ^ msb, alt, alt ^ m})
+
+
+SMALL_PORT = 7   # ports up to this width keep their full range inside the wide stratum
+
+
+def port_values(ins, mode):
+    """list of value lists, one per port"""
+    if mode != "wide":
+        return [range(1 << w) for _, _, w in ins]
+    big = [w for _, _, w in ins if w > SMALL_PORT]
+    out = []
+    for _, _, w in ins:
+        if w <= SMALL_PORT:
+            out.append(range(1 << w))
+        elif len(big) == 1:
+            out.append(wide_values(w))
+        else:
+            out.append(reduced_values(w, len(big)))
+    return out
+
+
+def n_valuations(ins, mode):
+    n = 1
+    for vs in port_values(ins, mode):
+        n *= len(vs)
+    return n
+
+
+def fam_select_sparse(w):
+    """select on a wide selector with a few keys"""
+    I = [("x", "u", w)]
+    m = (1 << w) - 1
+    keys = [0, 1, 1 << (w - 1), m]
+    res = {k: i + 1 for i, k in enumerate(keys)}
+    P = {"w": w, "branches": [(k, res[k]) for k in keys], "default": 7}
+    for fname, fk in (("int", str), ("Unsigned", lambda k: f"Unsigned[{w}]({k})")):
+        d = "{" + ", ".join(f"{fk(k)}: Unsigned[3]({res[k]})" for k in keys) + "}"
+        yield inst(f"select/x=u{w}/keys={fname}/branches=sparse", "select", I, [("u", 3)],
+                   f"o0 <<= std.select(x, {d}, default=Unsigned[3](7))", "select", P)
+
+
+def _wide_keep(it, w):
+    """parameter alternatives kept in the wide stratum (every helper stays, the per-width parameter sweeps
+    are thinned to values around the 8/16/32/64 thresholds and the ends)"""
+    h, p, k = it["helper"], it["p"], it["key"]
+    edge = {0, 1, 7, 8, 9, 15, 16, 17, 31, 32, 33, 63, 64, w - 1, w}
+    if h in ("rol", "ror"):
+        return k.endswith("default") or p["n"] in edge
+    if h == "one_hot" and "pos" in p:
+        return p["pos"] in edge
+    if h in ("leftpad", "rightpad"):
+        return "fill=omit" in k or "fill=Full" in k or "fill=port" in k
+    if h == "pad":
+        return ("fill=omit" in k and p["left"] != p["right"]) or "fill=port" in k or "positional" in k
+    if h in ("repeat", "stretch"):
+        return p.get("times", p.get("factor")) in (1, 2, 3)
+    if h == "batched":
+        return p["n"] in (3, 4, w) and "allow_partial" not in k
+    if h == "clamp" and "low" in p:
+        return p["low"] in (0, 1, -1) or "cmp=gt" in k
+    if h in ("minimum", "maximum", "min_element", "max_element", "min_index", "max_index"):
+        if "cmp=" in k:
+            return any(t in k for t in ("cmp=gt", "cmp=slt", "cmp=ult")) and "form=args" not in k
+        return True
+    if h == "batched_fold":
+        return p["op"] in ("add", "xor", "min", "concat", "left") and ("bs=None" in k or "bs=2" in k or "bs=3" in k)
+    if h == "binary_fold":
+        return p["op"] in ("add", "sub", "or", "max", "concat", "right")
+    return True
+
+
+def _thin(items, per_helper):
+    """at most per_helper instances of each helper: first, middle, last of the generation order"""
+    by = {}
+    for it in items:
+        by.setdefault(it["helper"], []).append(it)
+    keep = []
+    for h, L in by.items():
+        idx = sorted({0, len(L) // 2, len(L) - 1}) if per_helper >= 3 else sorted({0, len(L) - 1})[:per_helper]
+        keep += [L[i] for i in idx[:per_helper]]
+    return keep
+
+
+def wide_instances(widths, per_helper=None):
+    """per_helper: None = every kept parameter alternative; k = at most k instances per helper and width
+    (dict width -> k allowed)"""
+    out = []
+    for w in widths:
+        start = len(out)
+        fams = [fam_unary(w), fam_mask_const(w), fam_bitpos(w, (w - 1).bit_length()), fam_mask(w), fam_cond(w),
+                fam_select_sparse(w), fam_list(3, w, "u"), fam_list(3, w, "s"), fam_list_y(2, w),
+                fam_choose_ports(2, w), fam_clamp_narrow(w, "u")]
+        for k in sorted({1, 9, w}):
+            if k <= w:
+                fams.append(fam_two(w, k))
+        for kind in "us":
+            fams += [fam_clamp_ports(w, kind), fam_clamp_const(w, kind)]
+        for n, b in ((1, w), (3, w // 3), (4, w // 4)):
+            if n * b == w and b >= 1:
+                fams.append(fam_select_batch(n, b))
+        for fam in fams:
+            for it in fam:
+                if _wide_keep(it, w):
+                    it["key"] = "wide/" + it["key"]
+                    it["vals"] = "wide"
+                    out.append(it)
+        k = per_helper.get(w) if isinstance(per_helper, dict) else per_helper
+        if k:
+            out[start:] = _thin(out[start:], k)
+    return out
+
+
+# =============================================================================================
 # the bounded family per tier
 # =============================================================================================
 def total_bits(i):
@@ -584,6 +720,13 @@ def instances(thorough: bool):
     for w in W1:
         if 2 * w + 1 <= cap:
             out.extend(fam_cond(w))
+    # WIDE stratum: one width just above each usual implementation threshold (8/16/32/64) + the thresholds
+    # (quick: every helper with 3 parameter alternatives at 9 bits, 2 at 17 and 33 bits, 1 at 65 bits;
+    # thorough: all kept alternatives at all eight widths)
+    if thorough:
+        out.extend(wide_instances((9, 12, 16, 17, 32, 33, 64, 65)))
+    else:
+        out.extend(wide_instances((9, 17, 33, 65), {9: 3, 17: 2, 33: 2, 65: 1}))
     keys = set()
     for i in out:
         assert i["key"] not in keys, i["key"]
